@@ -35,3 +35,10 @@
 (declare-fun unq_str ((Array Int Int) Int Int) Str)
 ; decimal rendering of a natural number by strconv.FormatUint / Itoa (uninterpreted, assumed canonical)
 (declare-fun decimal_of (Int) Str)
+
+; ---- user type names in a list of strings (C05): how many of the first k strings start with '@' ----
+(define-fun isat ((s Str)) Bool (and (> (slen s) 0) (= (sat s 0) 64)))
+(declare-fun atcount ((Array Int Str) Int Int) Int)
+;@unfold
+(define-fun unfold_atcount ((d (Array Int Str)) (o Int) (k Int)) Bool (= (atcount d o k)
+  (ite (<= k 0) 0 (+ (atcount d o (- k 1)) (ite (isat (select d (+ o (- k 1)))) 1 0)))))
